@@ -399,7 +399,7 @@ def generate_pack(ctx, rng):
             for sub in subsets_of(1 << L):
                 cases.append(pack_shape(rng, "pack", n, [j * gap for j in sub], lgap))
     # random subsets beyond 8 slots, stray (non-slot) indices, NTT-only radices
-    for k in range(16 if quick else 400):
+    for k in range(24 if quick else 400):
         n = [16, 32, 16][k % 3]
         logn = n.bit_length() - 1
         lgap = rng.below(logn - 2) if k % 4 else rng.below(logn + 1)
@@ -417,8 +417,6 @@ def generate_pack(ctx, rng):
         for lb in range(0, logn):
             cnt = n >> lb
             subs = subsets_of(cnt) if cnt <= 8 else []
-            if quick and len(subs) > 24:
-                subs = [subs[rng.below(len(subs))] for _ in range(24)] + [subs[-1], subs[0]]
             for sub in subs:
                 cases.append(pack_shape(rng, "packer", n, sub, lb))
     for k in range(8 if quick else 120):
